@@ -89,12 +89,24 @@ Definition c12_bad (c : c12case) : option (list nat * nat * out) :=
              end
          end) ts O
   end.
-(** what the model observes (for replay files) *)
+(** what the model observes (printable; for replay files only) *)
+Inductive pans :=
+| PQ (n : Z) (d : positive) | PFU (n : Z) (d : positive) (u : list (string * Z * positive))
+| PU (u : list (string * Z * positive)) | PE (e : err).
+Definition show_uc (u : uc) : list (string * Z * positive) :=
+  map (λ kv : string * Qc, (kv.1, Qnum (this kv.2), Qden (this kv.2))) (map_to_list u).
+Definition show_answer (a : answer) : pans :=
+  match a with
+  | AQ m => PQ (Qnum (this m)) (Qden (this m))
+  | AFU f u => PFU (Qnum (this f)) (Qden (this f)) (show_uc u)
+  | AU u => PU (show_uc u)
+  | AErr e => PE e
+  end.
 Definition model_obs (su : setup) (ops : list (bool * op)) (r : bool)
-  : list string * nat * nat * list answer :=
+  : list string * nat * nat * list pans :=
   let w := wrun (su_qk su) (su_cfgs su) (world0 su) ops in
   (active_names (wreg w r), n_layers (wreg w r), n_caches (wreg w r),
-   map (answer_of (su_qk su) (wcfg su r) (wreg w r)) (su_probes su)).
+   map (λ q, show_answer (answer_of (su_qk su) (wcfg su r) (wreg w r) q)) (su_probes su)).
 
 (** short literals written by the harness *)
 Definition mkud (n : Z) (d : positive) (ref : list (string * Qc)) : udefv := UD (mkq n d) ref.
